@@ -910,7 +910,7 @@ class Twin:
             pre = op.get("pre", "absent")
             if pre == "longer":
                 with open(path, "wb") as f:
-                    f.write(b"X;previous content\r\n" * 4000)
+                    f.write(b"X;previous content\r\n" * 150)
             elif pre == "shorter":
                 with open(path, "wb") as f:
                     f.write(b"Q")
